@@ -223,6 +223,29 @@ def build_world(case, order: str, rng):
             record.add_cds_feature(g)
         if rng.random() < 0.5:
             record.create_regions()
+    elif order == "second-run":
+        # the record went through an earlier run in which other genes carried the core annotations; it is stripped
+        # (as antiSMASH does with an input that holds its annotations) and annotated again as the case says
+        marks = [g.get("core", ()) for g in case["genes"]]
+        earlier = [W.make_cds(g["name"], g["loc"], marks[(i + 1) % len(marks)]) for i, g in enumerate(case["genes"])]
+        for g in earlier:
+            record.add_cds_feature(g)
+        for p in protos:
+            record.add_protocluster(p())
+        for s in subs:
+            record.add_subregion(s())
+        record.create_candidate_clusters()
+        record.create_regions()
+        record.strip_antismash_annotations()
+        for g, products in zip(earlier, marks):
+            for product in products:
+                g.gene_functions.add(GeneFunction.CORE, "verif", "core gene", product)
+        for p in protos:
+            record.add_protocluster(p())
+        for s in subs:
+            record.add_subregion(s())
+        record.create_candidate_clusters()
+        record.create_regions()
     elif order == "late-areas":
         # regions exist already when further areas arrive (without re-creating regions), genes come last or in between
         pending = list(genes)
@@ -312,7 +335,7 @@ def gen_world(rng):
 
 def run_world(ctx, case, index=0):
     dumps = {}
-    for order in ("genes-first", "areas-first", "interleaved", "late-areas", "cleared-regions"):
+    for order in ("genes-first", "areas-first", "interleaved", "late-areas", "cleared-regions", "second-run"):
         try:
             record = build_world(case, order, ctx.rng("order", index))
         except Exception as err:  # pylint: disable=broad-except
